@@ -267,7 +267,8 @@ class Spec(PropSpec):
     assumptions = [
         "which SYN reaches which listener and when a connect completes are events of the per-host table model (taken from the implementation's results); the theorems quantify over every event sequence",
         "string parsing of address literals and regex matching are not modelled (names are Literal addr | Name id, the regex an arbitrary predicate evaluated by python's re on the same names)",
-        "4-tuple reuse against a stale peer entry (no TIME_WAIT in turmoil) is outside C15; generated scripts drop the accepted side together with the connecting side",
+        "the RST an abandoned pending connect sends to its peer (repo fix 48e101e) is a world-level event of the model (DeliverRst), scheduled from the script at latency 0",
+        "4-tuple reuse against a stale peer entry (no TIME_WAIT in turmoil) is outside C15: a history is considered up to the first such panic, random scripts connect to ports outside the ephemeral range, accepted streams on in-range listeners come from the structured accept-wrap family",
     ]
 
     def gen_cases(self, ctx):
